@@ -20,6 +20,7 @@ EXPLANATION_ADDED2 = " (R6) the C03 rule set as a precondition of 'EOF only afte
 EXPLANATION = EXPLANATION + " Added while testing against seeded changes: " + EXPLANATION_ADDED + EXPLANATION_ADDED2
 EXPLANATION = EXPLANATION + " Rounds 12-13: R5 also requires that a dispatch error does not end the wind-down's loop over the messages still buffered in the source."
 EXPLANATION = EXPLANATION + " Rounds 14-15: (R9) the reader's Some(frame) / None decision derives from the inbound queue's receive call alone (no constant None on another condition); (S9) the Finish / Push constructors are exact."
+EXPLANATION = EXPLANATION + ' Rounds 16-17: (R10) = C13.R3, end-of-stream through the bridge (only where the bridge is compiled).'
 ASSUMPTIONS = ["tokio mpsc: a receiver sees None only after all senders are dropped and the queue is drained",
                "frames travel in one FIFO (S1, checked under C02)"]
 NOT_DECIDED = "the cross-task timing clause 'only after every byte has been returned' (follows from FIFO + R2, trusted)"
